@@ -828,7 +828,21 @@ NextPin:
 		}
 	}
 
-	err = sdb.updateHash(tx, nodeID, hashUpdate)
+	if newEdge {
+		// the hash of the new edge also covers the children the node already has
+		children, err := sdb.edges(tx, "SELECT * FROM edges WHERE up=?", nodeID)
+		if err != nil {
+			rollback()
+			return err
+		}
+		for _, c := range children {
+			hashUpdate ^= c.Hash
+		}
+	}
+
+	// edge points only belong to this edge, so only this edge and what is
+	// above its parent changes
+	err = sdb.updateHashEdge(tx, edge.ID, parentID, hashUpdate)
 	if err != nil {
 		rollback()
 		return fmt.Errorf("Error updating upstream hash: %v", err)
@@ -882,6 +896,29 @@ func (sdb *DbSqlite) isAncestor(tx *sql.Tx, ancestorID, id string) (bool, error)
 	return false, nil
 }
 
+// updateHashEdge applies hashUpdate to one edge and to all edges upstream of
+// the edge's parent
+func (sdb *DbSqlite) updateHashEdge(tx *sql.Tx, edgeID, parentID string, hashUpdate uint32) error {
+	var hash uint32
+	err := tx.QueryRow("SELECT hash FROM edges WHERE id=?", edgeID).Scan(&hash)
+	if err != nil {
+		return err
+	}
+
+	// key in cache is edge ID
+	cache := make(map[string]uint32)
+	cache[edgeID] = hash ^ hashUpdate
+
+	if parentID != "none" {
+		err = sdb.updateHashHelper(tx, parentID, hashUpdate, cache)
+		if err != nil {
+			return err
+		}
+	}
+
+	return sdb.writeHashCache(tx, cache)
+}
+
 func (sdb *DbSqlite) updateHash(tx *sql.Tx, id string, hashUpdate uint32) error {
 	// key in edgeCache is up-down
 	cache := make(map[string]uint32)
@@ -890,7 +927,11 @@ func (sdb *DbSqlite) updateHash(tx *sql.Tx, id string, hashUpdate uint32) error 
 		return err
 	}
 
-	// write update hash values back to edges
+	return sdb.writeHashCache(tx, cache)
+}
+
+// writeHashCache writes updated hash values back to edges
+func (sdb *DbSqlite) writeHashCache(tx *sql.Tx, cache map[string]uint32) error {
 	stmt, err := tx.Prepare(`UPDATE edges SET hash = ? WHERE id = ?`)
 
 	if err != nil {
